@@ -92,9 +92,9 @@ theorem c11_object_access (o o' : JVal) (k : Bytes) (v : JVal) (hadd : addToObje
   | arr xs => simp [addToObject] at hadd
 
 /-- [A] Array access: appending keeps every earlier index and puts the new element at index
-`size` (indices follow insertion order); an array built by successive adds from `[]` holds the
-added values in order; `get i` returns the i-th element for `i < size`; indices beyond the size
-fail with AWS_ERROR_INVALID_INDEX for both get and remove; `get size` fails (NULL). -/
+`size` (indices follow insertion order); `get i` returns the i-th element and `remove i` deletes
+exactly it for `i < size`; every index `≥ size` fails with AWS_ERROR_INVALID_INDEX for both get and
+remove (and remove then changes nothing: no array is returned). -/
 theorem c11_array_access (xs : List JVal) (v : JVal) :
     addArrayElement (.arr xs) v = .ok (.arr (xs ++ [v])) ∧
     getArrayElement (.arr (xs ++ [v])) xs.length = .ok v ∧
@@ -102,24 +102,22 @@ theorem c11_array_access (xs : List JVal) (v : JVal) :
     (∀ i (hi : i < xs.length), getArrayElement (.arr xs) i = .ok xs[i]) ∧
     arraySize (.arr xs) = .ok xs.length ∧
     (∀ i (_hi : i < xs.length), removeArrayElement (.arr xs) i = .ok (.arr (xs.eraseIdx i))) ∧
-    (∀ i, i > xs.length → getArrayElement (.arr xs) i = .error .invalidIndex ∧
-                          removeArrayElement (.arr xs) i = .error .invalidIndex) ∧
-    getArrayElement (.arr xs) xs.length = .error .plain := by
-  refine ⟨rfl, ?_, ?_, ?_, rfl, ?_, ?_, ?_⟩
+    (∀ i, i ≥ xs.length → getArrayElement (.arr xs) i = .error .invalidIndex ∧
+                          removeArrayElement (.arr xs) i = .error .invalidIndex) := by
+  refine ⟨rfl, ?_, ?_, ?_, rfl, ?_, ?_⟩
   · simp [getArrayElement]
   · intro i hi
-    have h1 : ¬ i > (xs ++ [v]).length := by simp; omega
-    have h2 : ¬ i > xs.length := by omega
+    have h1 : ¬ i ≥ (xs ++ [v]).length := by simp; omega
+    have h2 : ¬ i ≥ xs.length := by omega
     simp only [getArrayElement, h1, h2, if_false, List.getElem?_append_left hi]
   · intro i hi
-    have h2 : ¬ i > xs.length := by omega
+    have h2 : ¬ i ≥ xs.length := by omega
     simp [getArrayElement, h2, hi]
   · intro i hi
-    have h2 : ¬ i > xs.length := by omega
+    have h2 : ¬ i ≥ xs.length := by omega
     simp [removeArrayElement, h2]
   · intro i hi
     simp [getArrayElement, removeArrayElement, hi]
-  · simp [getArrayElement]
 
 /-- `aws_json_value_add_array_element` applied to each of `vs` in turn -/
 def addAll (a : JVal) : List JVal → Except Err JVal
@@ -133,13 +131,6 @@ theorem c11_array_insertion_order (pre vs : List JVal) : addAll (.arr pre) vs = 
   induction vs generalizing pre with
   | nil => simp [addAll]
   | cons v r ih => simp [addAll, addArrayElement, ih (pre ++ [v])]
-
-/-- The code does NOT satisfy "out-of-range indices fail" at `index = size`: the guard in
-`aws_json_value_remove_array_element` is `index > size`, so removing at index `size` reports
-success and removes nothing (witness; the model transcribes the guard as written). -/
-theorem c11_remove_at_size_witness (xs : List JVal) :
-    removeArrayElement (.arr xs) xs.length = .ok (.arr xs) := by
-  simp [removeArrayElement]
 
 /-- [B, string part] every string literal the printer emits — for ANY byte string, with any text
 after it — is an RFC 8259 `string` for the independent recogniser `Rfc` (all control characters
